@@ -28,6 +28,7 @@ for f in $(grep '^diff --git' SEEDED/change$k.diff | sed 's|.* b/||'); do
     *core/serialization.py) add core/test_serialization core/test_pickle core/test_simulators;;
     *syntax/compiler.py|*syntax/scenic.gram|*syntax/translator.py|*syntax/ast.py|*syntax/parser.py|*core/errors.py) add syntax/test_compiler syntax/test_parser syntax/test_errors syntax/test_basic syntax/test_dynamics syntax/test_modular syntax/test_translator;;
     *domains/driving/*|*formats/opendrive/*) add domains/driving;;
+    *core/sensors.py) add syntax/test_dynamics syntax/test_modular core/test_simulators simulators/newtonian syntax/test_compiler syntax/test_parser;;
     *core/visibility.py) add syntax/test_operators syntax/test_specifiers syntax/test_requirements syntax/test_regions core/test_regions syntax/test_basic syntax/test_pruning;;
     *domains/driving/roads.py) add domains/driving;;
     *core/specifiers.py) add syntax/test_specifiers core/test_specifiers syntax/test_classes syntax/test_properties syntax/test_basic syntax/test_distributions core/test_pickle;;
